@@ -1,6 +1,6 @@
 PROP = dict(
     gen=["gsm7", "widths", "charsets"],
-    proof_files=["Properties/C07.v", "Proofs/ComposeInst.v", "Proofs/ComposeProofs.v", "Proofs/SplitterProofs.v"],
+    proof_files=["Properties/C07.v", "Proofs/ComposeInst.v", "Proofs/ComposeProofs.v", "Proofs/SplitterProofs.v", "Proofs/ComposeText.v", "Proofs/CharsetRoundtrip.v"],
     model_files=["Model/Gsm7.v", "Model/Splitter.v", "Model/Compose.v", "Model/IntervalMap.v", "Model/Charset.v", "Model/ComposeText.v"],
     trusted=["Gen/Widths.v: for each of the ten codings every one of the 1,112,064 Unicode scalar values as a one-character text through "
              "DataCoding.Encoding().NewEncoder().Bytes (accepted? octets returned) and through DataCoding.Splitter() (bits charged), as maximal "
